@@ -23,7 +23,7 @@ TRANSPARENT = ('ConstantExpr', 'ExprWithCleanups', 'MaterializeTemporaryExpr', '
                'SubstNonTypeTemplateParmExpr', 'FullExpr')
 
 PASS_CASTS = ('LValueToRValue', 'NoOp', 'FunctionToPointerDecay', 'ConstructorConversion', 'UserDefinedConversion',
-              'DerivedToBase', 'UncheckedDerivedToBase')
+              'DerivedToBase', 'UncheckedDerivedToBase', 'BuiltinFnToFnPtr')
 
 
 def qt(n):
@@ -363,6 +363,10 @@ class Tr:
         items = [self.e(x) for x in n.get('inner', [])]
         if ct.klass == 'arr':
             return '{{%s}}' % (', '.join(items) if items else '0')
+        if ct.c in ('m128i_t', 'm512i_t'):
+            if items not in ([], ['0'], ['0LL'], ['((long long)(0))']):
+                self.bad('vector initialiser other than zero', n)
+            return '{{0}}'
         if ct.klass in ('sv',) and len(items) == 2:
             return '((sv_t){%s, %s})' % tuple(items)
         if not items:
